@@ -22,7 +22,16 @@ def check_split(ctx, rule_b, rule_c, names=None):
     """array arm == scalar arm and the masks partition by the scalar predicate, for the correlations that split on the
     bubble point (shared with C07: density x FVF has to hold per element for the array form of the oil FVF as well)"""
     P = ctx.P
-    names = SPLIT if names is None else names
+    if names is None:
+        # the correlations that split on the bubble point today, plus every other oil correlation that has acquired an
+        # explicit array branch (an np.ndim / np.isscalar dispatch on its pressure argument)
+        import ast as _ast
+
+        names = list(SPLIT)
+        for cand in ("viscosity_beggs_robinson", "oil_compressibility_Standing", "density_Standing", "dgor_dpressure_Standing"):
+            fi_ = P.functions.get(OIL + cand)
+            if fi_ is not None and any(isinstance(n_, _ast.Call) and _ast.unparse(n_.func).split(".")[-1] in ("ndim", "isscalar") and n_.args and _ast.unparse(n_.args[0]) == "pressure" for n_ in _ast.walk(fi_.node)):
+                names.append(cand)
     # ---- C11-b/c array arm == scalar arm, masks partition by the scalar predicate
     PBQ = OIL + "pressure_bubblepoint_Standing"
     for name in names:
